@@ -43,6 +43,14 @@ def value(desc, hint_cls=None):
         if 'str' in desc:
             inner = desc['str']
             return bytes.fromhex(inner['hex']).decode('ascii', 'replace') if isinstance(inner, dict) and 'hex' in inner else ''
+        if 'datetime' in desc:
+            try:
+                tz = datetime.timezone(datetime.timedelta(seconds=desc.get('utcoffset') or 0)) if desc.get('aware') else None
+                base = datetime.datetime(1970, 1, 1, tzinfo=datetime.timezone.utc) + datetime.timedelta(
+                    seconds=desc['datetime'], microseconds=desc.get('micros') or 0)
+                return base.astimezone(tz) if tz is not None else base.replace(tzinfo=None)
+            except (OverflowError, ValueError, TypeError):
+                raise CannotRebuild('datetime %r' % desc)
         if 'cls' in desc:
             return obj(desc)
         raise CannotRebuild(repr(desc)[:80])
